@@ -69,7 +69,8 @@ PROPS["C01"] = {
                   "non-ASCII case mapping, BETWEEN with lower>=upper) are never generated."
                   " Later widening: one case in six joins a predicate over a list value (IN over split()/list(), len, [n]); IN lists of 33-70 keys; stores up to 130 pairs; one integer store in six holds integers near the int64 limits (the reference abstains on arithmetic beyond 2^40); trailing semicolons."
                   " Round 6: one numeric comparison in three compares with the value its left side has on one of the stored pairs (on the boundary); one float store in four holds values that are not exactly representable (0.1, 0.3, 0.7)."
-                  " Round 8: fixed-width decimals with leading zeros (010, 025, 008, 0100) among the stored integers.",
+                  " Round 8: fixed-width decimals with leading zeros (010, 025, 008, 0100) among the stored integers."
+                  " Round 9: integer neighbours that a float64 cannot tell apart (9223372036854775806/07, 9007199254740992/93) among the extreme integers.",
     "rule": "rapid: store kind x size {0..70} x batch size {1,2,3,5,32} x predicate depth 0..4 (comparisons, ^=, ~=, IN, BETWEEN, "
             "& | and or !, arithmetic, int/float/str/upper/lower/strlen/is_int/is_float/join/len(split)), literal on either side, "
             "`select * where P` and bare `where P`. Non-trivial = at least one stored pair satisfies P and at least one does not; "
@@ -186,7 +187,8 @@ PROPS["C03"] = {
     "level_note": "No reference evaluator is involved: the two iteration modes are compared with each other, which is what the property states. "
                   "Row-ok/batch-error is allowed (row mode short-circuits & and |) and counted."
                   " Row and batch iteration are compared under the SAME batch-size setting (statements that drive their child in chunks evaluate ahead according to the setting in either mode); rows are also compared across the two settings whenever both row runs complete."
-                  " Round 6: leg TestC03Dynamic - the templates of C06's dynamic leg (every operator family and function over json(value)['m'], member against member) over runs of pairs whose members are a number, a text, a Boolean, null, an array or an object: whenever batch iteration answers, row iteration must answer the same.",
+                  " Round 6: leg TestC03Dynamic - the templates of C06's dynamic leg (every operator family and function over json(value)['m'], member against member) over runs of pairs whose members are a number, a text, a Boolean, null, an array or an object: whenever batch iteration answers, row iteration must answer the same."
+                  " Round 9: is_int / is_float are also applied to numeric expressions (an integer or a float when evaluated).",
     "rule": "rapid: store kind x size (0..70) x two batch sizes x statement (60% SELECT with aliases/aggregates/order/limit, 10% DELETE, 15% PUT, 15% REMOVE) "
             "with exotic constructs enabled. Non-trivial = both modes complete, the result has >= 2 rows or spans more than one chunk, and the "
             "statement uses a construct with a twin implementation (function, alias, index, aggregate, order, limit, write); "
@@ -280,7 +282,8 @@ PROPS["C06"] = {
                   "Native fuzzing cannot be pinned to a seed; its saved failing input is the reproducible unit. Cache-off exponential alias fan-out is not explored."
                   " Later widening: every query text also goes through BuildExecutor; quantile percents outside [0, 1] written as constant expressions; leg TestC06Chains plans and runs chains of up to 40 named fields that each use the previous name twice (also as parameter of quantile / group_concat) under a 20 s deadline per statement - the one place where wall-clock time decides, four orders of magnitude above the linear cost."
                   " Round 5: leg TestC06NameGraph - select lists over a pool of three names in which fields name themselves, each other and repeat names (the first definition counts), the names also used in WHERE / ORDER BY / GROUP BY: a definition cycle that slips through the check overflows the stack."
-                  " Round 8: leg TestC06Arity calls every function and aggregate (and an unknown one) with 0 to 4 arguments of several kinds, as a field, grouped, inside WHERE and as a group column, over all pairs of the hostile stores.",
+                  " Round 8: leg TestC06Arity calls every function and aggregate (and an unknown one) with 0 to 4 arguments of several kinds, as a field, grouped, inside WHERE and as a group column, over all pairs of the hostile stores."
+                  " Round 9: the arity leg also writes every call as the NAME of a call (lower()(1)), in a select field and as a REMOVE key.",
     "rule": "rapid legs Grammar/Corrupt + deterministic legs Long/Seeds (+ native fuzz executions in the thorough tier, counted as evaluations only). "
             "Non-trivial = the statement reached execution (plan built and at least one storage read) or it was rejected with a positional error; "
             "distinct = distinct (query text, store size).",
@@ -349,7 +352,8 @@ PROPS["C17"] = {
                   " The reference tokeniser abstains on Unicode blanks other than space, tab and line end (the engine's own token starts are accepted there)."
                   " Round 5: blanks the documentation does not mention (form feed, vertical tab, NBSP, U+3000) in front of tokens, for one statement in four behind every space; where the reference abstains, no token start may lie ON a blank."
                   " Round 6: one statement in five is written over several lines (CRLF, LF, tabs): positions are checked, the line-oriented rendering is not; every error returned by BuildPlan, whatever its Go type, must point at 0, -1 or a token start."
-                  " Round 7: after the first rendering is verified the padding of the SAME error is changed and the rendering verified again.",
+                  " Round 7: after the first rendering is verified the padding of the SAME error is changed and the rendering verified again."
+                  " Round 9: the undocumented blanks are also glued behind the token in front of the space.",
     "rule": "rapid legs Corrupt / RunTime / Typed (+ native fuzz executions in the thorough tier). Non-trivial = a positional error with Pos >= 0 in a "
             "query longer than 70 bytes or with leading blanks; distinct = distinct (query, padding mode).",
     "assumptions": ["Go toolchain and pgregory.net/rapid v1.3.0 are trusted", "token starts are taken from the engine lexer (validated by C16) and from the reference tokeniser"],
@@ -374,7 +378,8 @@ PROPS["C07"] = {
                   "`order by key asc` must leave the sequence unchanged. The un-ordered base itself is cross-checked against the reference evaluator.",
     "level_note": "Trusted: comparators in lib/refselect.go, reference select. Ties may come in any order (only sortedness and permutation are demanded)."
                   " Later widening: the harness comparator is exact (big.Float); float stores hold NaN in one case of three - rows with a NaN order key are exempt from the adjacency check, all other rows must be sorted among themselves; integers near the int64 limits."
-                  " Round 6: half of the statements carry a chain of name-only fields, one chain in three ending in a concatenation on a text name (a field whose type is only known once the name inside it is resolved).",
+                  " Round 6: half of the statements carry a chain of name-only fields, one chain in three ending in a concatenation on a text name (a field whose type is only known once the name inside it is resolved)."
+                  " Round 9: Boolean GROUP BY columns (strlen(key) > 1, is_int(value), key ^= 'a').",
     "rule": "rapid: store x select list with named text/int/float/bool fields (25% aggregates with GROUP BY) x 1-3 ORDER BY keys x directions x batch {2,3,32} x {row,batch}. "
             "Non-trivial = at least 3 rows, at least one strictly ordered adjacent pair, and (for more than one key) at least one tie on the first key; "
             "distinct = distinct (query, store, batch size).",
@@ -528,7 +533,8 @@ PROPS["C13"] = {
                   "injected error. Whichever of BuildPlan / Next / Batch was running must return an error e with errors.Is(e, injected), the log must end at "
                   "entry i (no further storage call), and the drain must not end normally with a shortened result. Fault-free legs assert that SELECT issues "
                   "no mutating call at plan or execution time, and that statically rejected statements (C14's mutants) issue no storage call at all.",
-    "level_note": "One fault per run (no fault sequences). The faulted operation is not applied by the store. The harness stops polling at the first error, as a caller would.",
+    "level_note": "One fault per run (no fault sequences). The faulted operation is not applied by the store. The harness stops polling at the first error, as a caller would."
+                  " Round 9: the store hands out the SAME slices on every read, each with guarded spare capacity behind its content (canary bytes); after every SELECT the slices must still read what is stored and the spare capacity must be untouched - an in-place write or append into memory of the storage is found without relying on a second reader.",
     "rule": "rapid statements x stores (1-10 pairs) x batch size; per statement ALL fault positions x {row, batch} are enumerated. "
             "Non-trivial = the fault-free run makes at least 3 storage calls and the faulted call is not the last one; "
             "distinct = distinct (statement, store, batch size, mode, fault index).",
@@ -556,7 +562,8 @@ PROPS["C19"] = {
                   "A race failure is not shrinkable; the statement set is written as the replay."
                   " Later widening: one statement in ten uses the short form without a select part."
                   " Round 5: aggregate statements whose quantile percent / group_concat separator is given through a chain of named constant fields (evaluated when the plan is built)."
-                  " Round 6: what a plan says about itself (Explain lines, field names and types) is part of the compared outcome; one statement in ten uses names the process has not printed before (in plan descriptions and in refusal messages).",
+                  " Round 6: what a plan says about itself (Explain lines, field names and types) is part of the compared outcome; one statement in ten uses names the process has not printed before (in plan descriptions and in refusal messages)."
+                  " Round 9: the store that all readers share hands out the same slices to every one of them (guarded spare capacity, checked after the statements; the race detector sees the rest).",
     "rule": "rapid statement sets x GOMAXPROCS x repeats. Non-trivial = at least 2 goroutines and at least 2 of the statements are aggregate or alias "
             "statements; distinct = distinct (statement set, modes, GOMAXPROCS, store).",
     "assumptions": COMMON_ASSUMPTIONS + ["the Go race detector's happens-before analysis is trusted"],
